@@ -4,7 +4,7 @@
 From Coq Require Import List ZArith Lia Bool Arith.
 From Pico Require Import Base.Res Base.ListX Base.Mach Wire.Wire Schema.Types Schema.Scalar Schema.Gen Schema.Conv Schema.Interp Ref.Ref
   Wire.VarintProofs Wire.WireProofs Schema.ScalarProofs Dec.Dec Dec.ReaderProofs Dec.SafetyProofs Dec.LoopEquiv Dec.LoopInst
-  Dec.TokenBridge Dec.StreamLoop Dec.ReaderBridge Schema.DecOps.
+  Dec.TokenBridge Dec.StreamLoop Dec.ReaderBridge Schema.DecOps Schema.TEnc.
 Import ListNotations.
 Open Scope Z_scope.
 
@@ -136,7 +136,7 @@ Proof.
       + right. injection Hg as <-. repeat split; auto. discriminate.
     - rewrite (info_enum s f Hc Ht) in Hg. rewrite Ht. destruct (i_pointer (field_info s f)) eqn:Ep; [discriminate Hg|].
       destruct (foneof f) as [o|] eqn:Eo; injection Hg as <-; [left|right]; auto. }
-  intros st t HB He Hb Hm.
+  intros st t HB He Hb _ Hm.
   destruct Hop as [[Ho [Hp ->]]|[Ho [Hno [-> Hpe]]]].
   - (* oneof member *)
     cbn [op_reader rmatch rrun] in *. cbn [op_match] in Hm. unfold dec_op. cbn [op_match]. rewrite Hm. cbn [dec_op_run]. rewrite Hm.
@@ -266,3 +266,400 @@ Proof.
       apply one_token_step; [exact He|exact Hb|]. rewrite Ep. cbn. split; [discriminate|exact Hb].
 Qed.
 End Unknown.
+
+(* ---------------------------------------------------------------- one message *)
+Section Message.
+Variables (progs : list prog) (F' : nat).
+Let F := S F'.
+Variable rec : nat -> @body msgv.
+Hypothesis rec_sticky : forall idx, sticky_fn (rec idx).
+Variable ops : list dop.
+Hypothesis ops_ok : forall op, In op ops -> op_num_ok op = true.
+Hypothesis ops_disj : ops_disjoint ops.
+Variable h : token -> msgv -> option msgv.
+Variable B : nat.
+Hypothesis HB : (B + 3 <= F)%nat.
+Hypothesis readers_ok : forall op, In op ops -> reader_ok h B (op_reader progs F rec op).
+Hypothesis skip_ok : forall st t, (blen st <= B)%nat -> err st = None -> bytes_ok (buf st) -> pfv st = true ->
+  find (fun r => rmatch _ _ r st) (map (op_reader progs F rec) ops) = None -> step_ok h st t (skip st) t.
+
+(* Message(..., Decode) / Unmarshal on a buffer b: the Loop over the Decode body computes the
+   fold of the token handler over the reference tokens of b, and fails exactly when that fails *)
+Theorem msg_decode_ok b st0 t : bytes_ok b -> (length b <= B)%nat -> err st0 = None ->
+  let '(st', t') := Dec.loop F (dec_body progs F rec ops) (push_state b st0) t in
+  match tokens b with
+  | None => err st' <> None
+  | Some ts => match fold_opt h ts (Some t) with
+               | Some t'' => err st' = None /\ t' = t''
+               | None => err st' <> None
+               end
+  end.
+Proof.
+  intros Hb Hl He0. unfold push_state. unfold F in *.
+  assert (Hst : forall r, In r (map (op_reader progs (S F') rec) ops) -> reader_sticky r).
+  { intros r Hr st t0 He. apply in_map_iff in Hr. destruct Hr as [op [<- Hin]]. cbn [rrun op_reader].
+    apply (dec_op_sticky progs F' rec rec_sticky ops ops_ok op st t0 Hin He). }
+  assert (Hro : forall r, In r (map (op_reader progs (S F') rec) ops) -> reader_ok h B r).
+  { intros r Hr. apply in_map_iff in Hr. destruct Hr as [op [<- Hin]]. apply readers_ok, Hin. }
+  destruct b as [|y l].
+  - (* empty payload: one pass in which nothing matches *)
+    change (next_field 0 {| pf := 0; pw := 0; buf := []; err := err st0 |}) with (mkst fieldDone 0 [] (err st0)).
+    rewrite (body_loop_single_pass progs F' rec rec_sticky ops ops_ok ops_disj _ t (S F') (S F')); [|right; left; reflexivity|unfold blen; cbn; lia|unfold blen; cbn; lia].
+    rewrite loop1_invalid by reflexivity. rewrite tokens_nil. cbn. split; [exact He0|reflexivity].
+  - pose proof (tokens_enter (y :: l) 0 0 (err st0) Hb ltac:(discriminate)) as Hent. cbn zeta in Hent.
+    change {| pf := 0; pw := 0; buf := y :: l; err := err st0 |} with (mkst 0 0 (y :: l) (err st0)).
+    set (st := next_field 0 (mkst 0 0 (y :: l) (err st0))) in *.
+    destruct Hent as [[Hv [Hee [Hst' [Hlen Hbb]]]]|[Hee [Hpf Htk]]].
+    + rewrite (body_loop_single_pass progs F' rec rec_sticky ops ops_ok ops_disj st t (S F') (S F')); [|left; exact Hv|unfold blen; lia|unfold blen; lia].
+      pose proof (loop1_stream h B (map (op_reader progs (S F') rec) ops) Hro Hst skip_ok (S F') st t ltac:(unfold blen; lia) ltac:(unfold blen; lia)
+                    ltac:(congruence) Hbb Hv) as Hs.
+      destruct (loop1 msgv dstate pfv skip (map (op_reader progs (S F') rec) ops) (S F') st t) as [st' t'].
+      rewrite Hst' in Hs. destruct (tokens (y :: l)) as [ts|]; [|exact Hs].
+      destruct (fold_opt h ts (Some t)) as [t''|]; [|exact Hs]. tauto.
+    + rewrite (body_loop_single_pass progs F' rec rec_sticky ops ops_ok ops_disj st t (S F') (S F')); [|right; right; exact Hpf|unfold blen; pose proof (adv_weak _ _ (adv_next_field 0 (mkst 0 0 (y :: l) (err st0)))) as Hw; unfold blen in Hw; cbn [buf mkst] in Hw; fold st in Hw; lia|unfold blen; pose proof (adv_weak _ _ (adv_next_field 0 (mkst 0 0 (y :: l) (err st0)))) as Hw; unfold blen in Hw; cbn [buf mkst] in Hw; fold st in Hw; lia].
+      rewrite loop1_invalid by (unfold pfv; rewrite Hpf; reflexivity). rewrite Htk. exact Hee.
+Qed.
+End Message.
+
+(* ---------------------------------------------------------------- generated programs *)
+From Coq Require Import Sorting.Permutation.
+
+Lemma insert_by_num_perm x l : Permutation (insert_by_num x l) (x :: l).
+Proof.
+  induction l as [|y l IH]; cbn [insert_by_num]; [reflexivity|].
+  destruct (fnum (snd x) <? fnum (snd y)); [reflexivity|].
+  rewrite IH. apply perm_swap.
+Qed.
+Lemma sort_by_num_perm l : Permutation (sort_by_num l) l.
+Proof.
+  unfold sort_by_num. induction l as [|x l IH]; cbn [fold_right]; [reflexivity|].
+  rewrite insert_by_num_perm. constructor. exact IH.
+Qed.
+Lemma number_from_snd {A} (l : list A) : forall n, map snd (number_from n l) = l.
+Proof. induction l as [|x l IH]; intros n; cbn; [reflexivity|]. rewrite IH. reflexivity. Qed.
+Lemma number_from_fst_lt {A} (l : list A) : forall n p, In p (number_from n l) -> (n <= fst p)%nat.
+Proof. induction l as [|x l IH]; intros n p H; cbn in H; [contradiction|]. destruct H as [<-|H]; [cbn; lia|]. specialize (IH _ _ H). lia. Qed.
+Lemma number_from_NoDup_fst {A} (l : list A) : forall n, NoDup (map fst (number_from n l)).
+Proof.
+  induction l as [|x l IH]; intros n; cbn; [constructor|]. constructor; [|apply IH].
+  intros H. apply in_map_iff in H. destruct H as [p [E Hp]]. apply number_from_fst_lt in Hp. lia.
+Qed.
+
+Lemma find_unique {A} (g : A -> Z) (l : list A) x : NoDup (map g l) -> In x l -> find (fun p => g p =? g x) l = Some x.
+Proof.
+  induction l as [|y l IH]; intros Hnd Hin; [contradiction|]. cbn [map] in Hnd. inversion Hnd as [|? ? Hny Hnd']; subst.
+  cbn [find]. destruct Hin as [->|Hin]; [rewrite Z.eqb_refl; reflexivity|].
+  destruct (Z.eqb_spec (g y) (g x)) as [E|E]; [|apply IH; assumption].
+  exfalso. apply Hny. rewrite E. apply in_map. exact Hin.
+Qed.
+Lemma find_absent {A} (g : A -> Z) (l : list A) v : (forall p, In p l -> g p <> v) -> find (fun p => g p =? v) l = None.
+Proof.
+  induction l as [|y l IH]; intros H; [reflexivity|]. cbn [find].
+  destruct (Z.eqb_spec (g y) v) as [E|E]; [exfalso; apply (H y); [left; reflexivity|exact E]|]. apply IH. intros p Hp. apply H. right. exact Hp.
+Qed.
+
+Section MsgFacts.
+Variable m : mdesc.
+Hypothesis Hnd : NoDup (map fnum (mfields m)).
+
+Lemma fields_nodup_num : NoDup (map (fun p : nat * fdesc => fnum (snd p)) (number_from 0 (mfields m))).
+Proof. rewrite <- (map_map snd fnum). rewrite number_from_snd. exact Hnd. Qed.
+
+Lemma find_field_known slot f : In (slot, f) (number_from 0 (mfields m)) -> find_field m (fnum f) = Some (slot, f).
+Proof. intros Hin. unfold find_field. apply (find_unique (fun p : nat * fdesc => fnum (snd p)) _ (slot, f) fields_nodup_num Hin). Qed.
+Lemma find_field_unknown num : (forall f, In f (mfields m) -> fnum f <> num) -> find_field m num = None.
+Proof.
+  intros H. unfold find_field. apply (find_absent (fun p : nat * fdesc => fnum (snd p))). intros p Hp.
+  apply H. apply (number_from_In _ _ _ Hp).
+Qed.
+End MsgFacts.
+
+(* the bit set of known field numbers *)
+Lemma bitset_fold (fields : list fdesc) : (forall f, In f fields -> 0 <= fnum f) ->
+  forall acc num, 0 <= num ->
+  Z.testbit (fold_left (fun z f => Z.lor z (Z.shiftl 1 (fnum f))) fields acc) num =
+  Z.testbit acc num || existsb (fun f => fnum f =? num) fields.
+Proof.
+  induction fields as [|f fields IH]; intros Hpos acc num Hn; cbn [fold_left existsb]; [rewrite orb_false_r; reflexivity|].
+  rewrite IH; [|intros g Hg; apply Hpos; right; exact Hg|exact Hn].
+  rewrite Z.lor_spec. rewrite Z.shiftl_spec by exact Hn.
+  assert (Hf : 0 <= fnum f) by (apply Hpos; left; reflexivity).
+  assert (E : Z.testbit 1 (num - fnum f) = (fnum f =? num)).
+  { destruct (Z.eqb_spec (fnum f) num) as [->|Hne]; [rewrite Z.sub_diag; reflexivity|].
+    destruct (Z.ltb_spec (num - fnum f) 0) as [Hneg|Hpos']; [apply Z.testbit_neg_r; exact Hneg|].
+    change 1 with (2 ^ 0). apply Z.pow2_bits_false. lia. }
+  rewrite E. rewrite <- orb_assoc. reflexivity.
+Qed.
+
+Lemma fields_bitset_spec m z : (forall f, In f (mfields m) -> 0 <= fnum f) -> fields_bitset m = GOk z ->
+  (forall f, In f (mfields m) -> fnum f < 64) /\
+  (forall num, 0 <= num -> Z.testbit z num = existsb (fun f => fnum f =? num) (mfields m)).
+Proof.
+  intros Hpos H. unfold fields_bitset in H.
+  destruct (existsb (fun f => 64 <=? fnum f) (mfields m)) eqn:Ee; [discriminate H|]. injection H as <-. split.
+  - intros f Hf. destruct (Z.ltb_spec (fnum f) 64) as [Hlt|Hge]; [exact Hlt|].
+    assert (existsb (fun f => 64 <=? fnum f) (mfields m) = true) by (apply existsb_exists; exists f; split; [exact Hf|apply Z.leb_le; exact Hge]).
+    congruence.
+  - intros num Hn. rewrite (bitset_fold (mfields m) Hpos 0 num Hn). rewrite Z.bits_0. reflexivity.
+Qed.
+
+Lemma info_kind_not_custom s f : f_custom f <> COpaque ->
+  i_kind (field_info s f) <> GCustom /\ i_kind (field_info s f) <> GCastOpaque.
+Proof.
+  intros Hc. unfold field_info. destruct (f_custom f); try congruence; destruct (fty f); try destruct (is_bytes_kind k); cbn; split; discriminate.
+Qed.
+
+Lemma gen_field_decode_match s sibs slot f op : gen_field_decode s sibs slot f = GOk op -> f_custom f <> COpaque ->
+  (forall st, op_match op st = (pf st =? fnum f)) /\ op_num_ok op = valid_number (fnum f).
+Proof.
+  intros Hg Hc. destruct (info_kind_not_custom s f Hc) as [Hk1 Hk2]. unfold gen_field_decode in Hg.
+  destruct (i_oneof (field_info s f)), (i_pointer (field_info s f)), (i_repeated (field_info s f)), (i_kind (field_info s f));
+    try congruence; cbn in Hg; try discriminate Hg; injection Hg as <-; split; intros; reflexivity.
+Qed.
+
+Lemma Forall2_len {A B} (P : A -> B -> Prop) l ys : Forall2 P l ys -> length l = length ys.
+Proof. induction 1; cbn; congruence. Qed.
+
+(* the Decode program of an accepted message: one statement per field (ascending numbers), then UnrecognizedFields *)
+Lemma gen_decode_shape s m ops : gen_decode s m = GOk ops ->
+  exists fops, Forall2 (fun p op => gen_field_decode s (oneof_siblings m (snd p) (fst p)) (fst p) (snd p) = GOk op)
+                       (sort_by_num (number_from 0 (mfields m))) fops /\
+    ((m_capture m = false /\ ops = fops) \/ (m_capture m = true /\ exists z, fields_bitset m = GOk z /\ ops = fops ++ [DUnrec z])).
+Proof.
+  unfold gen_decode. intros H.
+  destruct (gmap (fun p => gen_field_decode s (oneof_siblings m (snd p) (fst p)) (fst p) (snd p)) (sort_by_num (number_from 0 (mfields m)))) as [fops|r] eqn:Eg; [|discriminate H].
+  exists fops. split; [exact (gmap_Forall2 _ _ _ Eg)|].
+  destruct (m_capture m); [|left; injection H as <-; auto].
+  destruct (fields_bitset m) as [z|r]; [|discriminate H]. injection H as <-. right. split; [reflexivity|]. exists z. auto.
+Qed.
+
+Section GenMsg.
+Variables (s : schema) (progs : list prog) (F' : nat).
+Let F := S F'.
+Variable rec : nat -> @body msgv.
+Variable rrec : nat -> bytes -> msgv -> option msgv.
+Variable m : mdesc.
+Variable ops : list dop.
+Variable B : nat.
+Hypothesis Hgen : gen_decode s m = GOk ops.
+Hypothesis Hnd : NoDup (map fnum (mfields m)).
+Hypothesis Hvalid : forall f, In f (mfields m) -> valid_number (fnum f) = true.
+Hypothesis Hnoop : forall f, In f (mfields m) -> f_custom f <> COpaque.
+Hypothesis rec_sticky : forall idx, sticky_fn (rec idx).
+Hypothesis HB : (B + 3 <= F)%nat.
+Hypothesis Hfield : forall slot f op, In (slot, f) (number_from 0 (mfields m)) ->
+  gen_field_decode s (oneof_siblings m f slot) slot f = GOk op ->
+  (forall tok t, t_num tok = fnum f -> apply_token s rrec m tok t = hfield s rrec m slot f tok t) ->
+  reader_ok (apply_token s rrec m) B (op_reader progs F rec op).
+
+Let sorted := sort_by_num (number_from 0 (mfields m)).
+Lemma sorted_in p : In p sorted <-> In p (number_from 0 (mfields m)).
+Proof. unfold sorted. split; intros H; [apply (Permutation_in _ (sort_by_num_perm _) H)|apply (Permutation_in _ (Permutation_sym (sort_by_num_perm _)) H)]. Qed.
+Lemma sorted_nodup : NoDup (map (fun p : nat * fdesc => fnum (snd p)) sorted).
+Proof.
+  apply (Permutation_NoDup (l := map (fun p : nat * fdesc => fnum (snd p)) (number_from 0 (mfields m)))).
+  - apply Permutation_map, Permutation_sym, sort_by_num_perm.
+  - apply fields_nodup_num. exact Hnd.
+Qed.
+Lemma field_pos f : In f (mfields m) -> 1 <= fnum f.
+Proof. intros H. pose proof (Hvalid f H) as Hv. unfold valid_number in Hv. apply andb_true_iff in Hv. destruct Hv as [H1 _]. apply Z.leb_le in H1. exact H1. Qed.
+
+Theorem gen_msg_decode_ok b st0 t : bytes_ok b -> (length b <= B)%nat -> err st0 = None ->
+  let '(st', t') := Dec.loop F (dec_body progs F rec ops) (push_state b st0) t in
+  match tokens b with
+  | None => err st' <> None
+  | Some ts => match fold_opt (apply_token s rrec m) ts (Some t) with
+               | Some t'' => err st' = None /\ t' = t''
+               | None => err st' <> None
+               end
+  end.
+Proof.
+  destruct (gen_decode_shape s m ops Hgen) as [fops [F2 Hshape]]. fold sorted in F2.
+  (* every field statement tests its own number *)
+  assert (Hfop : forall i op, nth_error fops i = Some op -> exists slot f, nth_error sorted i = Some (slot, f) /\
+             In (slot, f) (number_from 0 (mfields m)) /\ In f (mfields m) /\
+             gen_field_decode s (oneof_siblings m f slot) slot f = GOk op /\
+             (forall st, op_match op st = (pf st =? fnum f)) /\ op_num_ok op = true).
+  { intros i op Hi. destruct (Forall2_nth _ _ _ F2 i op Hi) as [[slot f] [Hp Hg]]. cbn [fst snd] in Hg.
+    assert (Hin : In (slot, f) (number_from 0 (mfields m))) by (apply sorted_in; apply (nth_error_In _ _ Hp)).
+    assert (Hf : In f (mfields m)) by (apply (number_from_In _ _ _ Hin)).
+    destruct (gen_field_decode_match s _ slot f op Hg (Hnoop f Hf)) as [M1 M2].
+    exists slot, f. repeat split; try assumption. rewrite M2. apply Hvalid, Hf. }
+  assert (Hfield_has_op : forall f, In f (mfields m) -> exists op, In op fops /\ forall st, op_match op st = (pf st =? fnum f)).
+  { intros f Hf. assert (exists slot, In (slot, f) sorted) as [slot Hs].
+    { assert (In f (map snd (number_from 0 (mfields m)))) as Hx by (rewrite number_from_snd; exact Hf).
+      apply in_map_iff in Hx. destruct Hx as [[sl f'] [E Hx]]. cbn in E. subst f'. exists sl. apply sorted_in. exact Hx. }
+    destruct (In_nth_error _ _ Hs) as [i Hi].
+    assert (exists op, nth_error fops i = Some op) as [op Hop].
+    { destruct (nth_error fops i) as [op|] eqn:E; [exists op; reflexivity|]. exfalso.
+      apply nth_error_None in E. pose proof (Forall2_len _ _ _ F2) as Hl. assert (i < length sorted)%nat by (apply nth_error_Some; congruence). lia. }
+    destruct (Hfop i op Hop) as [slot' [f' [Hp [_ [_ [_ [M _]]]]]]]. rewrite Hi in Hp. injection Hp as <- <-.
+    exists op. split; [apply (nth_error_In _ _ Hop)|exact M]. }
+  (* the tail *)
+  assert (Hops : (m_capture m = false /\ ops = fops) \/
+                 (m_capture m = true /\ exists z, ops = fops ++ [DUnrec z] /\ (forall f, In f (mfields m) -> fnum f < 64) /\
+                    (forall num, 0 <= num -> Z.testbit z num = existsb (fun f => fnum f =? num) (mfields m)))).
+  { destruct Hshape as [H|[Hc [z [Hz ->]]]]; [left; exact H|right]. split; [exact Hc|]. exists z. split; [reflexivity|].
+    apply fields_bitset_spec; [|exact Hz]. intros f Hf. pose proof (field_pos f Hf). lia. }
+  assert (Hunknown : forall num, (forall op, In op fops -> forall st, pf st = num -> op_match op st = false) ->
+                       forall f, In f (mfields m) -> fnum f <> num).
+  { intros num Hno f Hf E. destruct (Hfield_has_op f Hf) as [op [Hin M]].
+    specialize (Hno op Hin (mkst num 0 [] None) eq_refl). rewrite M in Hno. cbn in Hno. rewrite E, Z.eqb_refl in Hno. discriminate. }
+  assert (Hmask : forall z, (forall f, In f (mfields m) -> fnum f < 64) ->
+                    (forall num, 0 <= num -> Z.testbit z num = existsb (fun f => fnum f =? num) (mfields m)) ->
+                    forall num, unrec_tok z num = true -> forall f, In f (mfields m) -> fnum f <> num).
+  { intros z H64 Hbit num Hu f Hf E. unfold unrec_tok in Hu. apply orb_true_iff in Hu. destruct Hu as [Hu|Hu].
+    - apply Z.leb_le in Hu. specialize (H64 f Hf). lia.
+    - pose proof (field_pos f Hf). rewrite Hbit in Hu by lia. apply negb_true_iff in Hu.
+      assert (existsb (fun f0 => fnum f0 =? num) (mfields m) = true) by (apply existsb_exists; exists f; split; [exact Hf|apply Z.eqb_eq; exact E]).
+      congruence. }
+  apply (msg_decode_ok progs F' rec rec_sticky ops); try assumption.
+  - (* ops_ok *)
+    intros op Hin. destruct Hops as [[_ ->]|[_ [z [-> _]]]].
+    + destruct (In_nth_error _ _ Hin) as [i Hi]. destruct (Hfop i op Hi) as [_ [_ [_ [_ [_ [_ [_ Hok]]]]]]]. exact Hok.
+    + apply in_app_or in Hin. destruct Hin as [Hin|[<-|[]]]; [|reflexivity].
+      destruct (In_nth_error _ _ Hin) as [i Hi]. destruct (Hfop i op Hi) as [_ [_ [_ [_ [_ [_ [_ Hok]]]]]]]. exact Hok.
+  - (* disjoint *)
+    assert (Hff : forall i j opi opj st, nth_error fops i = Some opi -> nth_error fops j = Some opj ->
+              op_match opi st = true -> op_match opj st = true -> i = j).
+    { intros i j opi opj st Hi Hj Mi Mj.
+      destruct (Hfop i opi Hi) as [si [fi [Pi [_ [_ [_ [Mi' _]]]]]]]. destruct (Hfop j opj Hj) as [sj [fj [Pj [_ [_ [_ [Mj' _]]]]]]].
+      rewrite Mi' in Mi. rewrite Mj' in Mj. apply Z.eqb_eq in Mi. apply Z.eqb_eq in Mj.
+      apply (proj1 (NoDup_nth_error _) sorted_nodup).
+      - rewrite map_length. apply nth_error_Some. congruence.
+      - rewrite !nth_error_map, Pi, Pj. cbn. congruence. }
+    intros i j opi opj st Hinv Hi Hj Mi Mj. destruct Hops as [[_ ->]|[_ [z [-> [H64 Hbit]]]]]; [exact (Hff i j opi opj st Hi Hj Mi Mj)|].
+    assert (Hfu : forall i opi, nth_error fops i = Some opi -> op_match opi st = true -> unrec_match z st = true -> False).
+    { intros i0 op0 H0 M0 Mu. destruct (Hfop i0 op0 H0) as [s0 [f0 [_ [_ [Hf0 [_ [M0' _]]]]]]]. rewrite M0' in M0. apply Z.eqb_eq in M0.
+      unfold unrec_match in Mu. apply andb_true_iff in Mu. destruct Mu as [_ Mu].
+      apply (Hmask z H64 Hbit (pf st) Mu f0 Hf0). congruence. }
+    destruct (Nat.lt_ge_cases i (length fops)) as [Li|Li]; destruct (Nat.lt_ge_cases j (length fops)) as [Lj|Lj].
+    + rewrite nth_error_app1 in Hi, Hj by assumption. exact (Hff i j opi opj st Hi Hj Mi Mj).
+    + rewrite nth_error_app1 in Hi by assumption. rewrite nth_error_app2 in Hj by assumption.
+      destruct (j - length fops)%nat as [|d]; [|destruct d; discriminate Hj]. injection Hj as <-. cbn [op_match] in Mj.
+      exfalso. exact (Hfu i opi Hi Mi Mj).
+    + rewrite nth_error_app1 in Hj by assumption. rewrite nth_error_app2 in Hi by assumption.
+      destruct (i - length fops)%nat as [|d]; [|destruct d; discriminate Hi]. injection Hi as <-. cbn [op_match] in Mi.
+      exfalso. exact (Hfu j opj Hj Mj Mi).
+    + rewrite nth_error_app2 in Hi, Hj by assumption.
+      destruct (i - length fops)%nat as [|d] eqn:Ei; [|destruct d; discriminate Hi].
+      destruct (j - length fops)%nat as [|d] eqn:Ej; [|destruct d; discriminate Hj]. lia.
+  - (* reader contracts *)
+    assert (Hfr : forall op, In op fops -> reader_ok (apply_token s rrec m) B (op_reader progs (S F') rec op)).
+    { intros op Hin. destruct (In_nth_error _ _ Hin) as [i Hi]. destruct (Hfop i op Hi) as [slot [f [_ [Hnf [_ [Hg _]]]]]].
+      apply (Hfield slot f op Hnf Hg). intros tok t0 E. apply apply_token_known. rewrite E. apply find_field_known; assumption. }
+    intros op Hin. destruct Hops as [[_ ->]|[Hcap [z [-> [H64 Hbit]]]]]; [apply Hfr, Hin|].
+    apply in_app_or in Hin. destruct Hin as [Hin|[<-|[]]]; [apply Hfr, Hin|].
+    intros st t0 HBl He Hb Hv Hm. cbn [op_reader rmatch rrun] in *. unfold dec_op. rewrite Hm. cbn [dec_op_run].
+    pose proof (unrec_loop (apply_token s rrec m) z) as Hl.
+    assert (Hh : forall tok t1, unrec_tok z (t_num tok) = true ->
+              apply_token s rrec m tok t1 = Some (fst t1, snd t1 ++ spec_tag (t_num tok) (t_wt tok) ++ t_raw tok)).
+    { intros tok t1 Hu. unfold apply_token. rewrite (find_field_unknown m (t_num tok)); [rewrite Hcap; reflexivity|].
+      apply (Hmask z H64 Hbit). exact Hu. }
+    destruct t0 as [fs0 un0]. cbn [fst snd]. specialize (Hl Hh F' st fs0 un0 He Hb Hv Hm).
+    destruct (dec_unrecognized (S F') z st un0) as [st' out']. exact Hl.
+  - (* skip *)
+    intros st t0 HBl He Hb Hv Hfind.
+    assert (Hnom : forall op, In op ops -> op_match op st = false).
+    { intros op Hin. apply (find_none _ _ Hfind (op_reader progs (S F') rec op)). apply in_map. exact Hin. }
+    destruct Hops as [[Hcap ->]|[Hcap [z [-> [H64 Hbit]]]]].
+    + apply skip_ignored; [exact He|exact Hb|]. intros tok E. unfold apply_token.
+      rewrite (find_field_unknown m (t_num tok)); [rewrite Hcap; reflexivity|].
+      rewrite E. apply Hunknown. intros op Hin st1 E1. 
+      destruct (In_nth_error _ _ Hin) as [i Hi]. destruct (Hfop i op Hi) as [_ [f0 [_ [_ [_ [_ [M0 _]]]]]]].
+      pose proof (Hnom op Hin) as Hn. rewrite M0 in *. rewrite E1. exact Hn.
+    + exfalso. pose proof (Hnom (DUnrec z) ltac:(apply in_or_app; right; left; reflexivity)) as Hu. cbn [op_match] in Hu.
+      assert (Hpos : 1 <= pf st).
+      { unfold pfv, valid_number in Hv. apply andb_true_iff in Hv. destruct Hv as [H1 _]. apply Z.leb_le in H1. exact H1. }
+      replace (0 <=? pf st) with true in Hu by (symmetry; apply Z.leb_le; lia). cbn [andb] in Hu.
+      apply orb_false_iff in Hu. destruct Hu as [_ Hu]. apply negb_false_iff in Hu. rewrite Hbit in Hu by lia.
+      apply existsb_exists in Hu. destruct Hu as [f [Hf E]]. apply Z.eqb_eq in E.
+      destruct (Hfield_has_op f Hf) as [op [Hin M]].
+      pose proof (Hnom op ltac:(apply in_or_app; left; exact Hin)) as Hn. rewrite M, E, Z.eqb_refl in Hn. discriminate.
+Qed.
+End GenMsg.
+
+(* ---------------------------------------------------------------- whole schemas *)
+Definition wf_msg_dec (m : mdesc) : Prop :=
+  NoDup (map fnum (mfields m)) /\ forall f, In f (mfields m) -> valid_number (fnum f) = true /\ f_custom f <> COpaque.
+Definition wf_schema_dec (s : schema) : Prop := forall m, In m s -> wf_msg_dec m.
+
+Lemma gen_decode_ops_ok s m ops : gen_decode s m = GOk ops -> wf_msg_dec m -> forall op, In op ops -> op_num_ok op = true.
+Proof.
+  intros Hg [_ Hwf] op Hin. destruct (gen_decode_shape s m ops Hg) as [fops [F2 Hshape]].
+  assert (Hf : forall op, In op fops -> op_num_ok op = true).
+  { intros o Ho. destruct (In_nth_error _ _ Ho) as [i Hi]. destruct (Forall2_nth _ _ _ F2 i o Hi) as [[slot f] [Hp Hgf]]. cbn [fst snd] in Hgf.
+    assert (In f (mfields m)).
+    { apply (number_from_In _ 0%nat (slot, f)). apply (Permutation_in _ (sort_by_num_perm _)). apply (nth_error_In _ _ Hp). }
+    destruct (Hwf f H) as [Hv Hc]. destruct (gen_field_decode_match s _ slot f o Hgf Hc) as [_ M]. rewrite M. exact Hv. }
+  destruct Hshape as [[_ ->]|[_ [z [_ ->]]]]; [apply Hf, Hin|].
+  apply in_app_or in Hin. destruct Hin as [Hin|[<-|[]]]; [apply Hf, Hin|reflexivity].
+Qed.
+
+Lemma gen_all_nth s progs idx p : gen_all s = GOk progs -> nth_error progs idx = Some p ->
+  exists m, nth_error s idx = Some m /\ gen_decode s m = GOk (p_dec p) /\ p_zero p = zero_fields s m.
+Proof.
+  intros Hgen Hp. unfold gen_all in Hgen. destruct (Forall2_nth _ _ _ (gmap_Forall2 _ _ _ Hgen) idx p Hp) as [m [Hm Hg]].
+  exists m. split; [exact Hm|]. unfold gen_prog in Hg. destruct (gen_encode s m); [|discriminate Hg].
+  destruct (gen_decode s m) as [d|]; [|discriminate Hg]. injection Hg as <-. split; reflexivity.
+Qed.
+Lemma gen_all_nth_s s progs idx m : gen_all s = GOk progs -> nth_error s idx = Some m -> exists p, nth_error progs idx = Some p.
+Proof.
+  intros Hgen Hm. unfold gen_all in Hgen. pose proof (Forall2_len _ _ _ (gmap_Forall2 _ _ _ Hgen)) as Hl.
+  destruct (nth_error progs idx) as [p|] eqn:E; [exists p; reflexivity|]. apply nth_error_None in E.
+  assert (idx < length s)%nat by (apply nth_error_Some; congruence). lia.
+Qed.
+
+(* dec.err is never cleared by any Decode method *)
+Lemma dec_msg_sticky s progs F' : gen_all s = GOk progs -> wf_schema_dec s ->
+  forall fuel idx, sticky_fn (dec_msg fuel progs (S F') idx).
+Proof.
+  intros Hgen Hwf. induction fuel as [|fuel IH]; intros idx st t He; [apply fail_err|]. cbn [dec_msg].
+  destruct (nth_error progs idx) as [p|] eqn:Ep; [|apply fail_err].
+  destruct (gen_all_nth s progs idx p Hgen Ep) as [m [Hm [Hg _]]].
+  pose proof (gen_decode_ops_ok s m (p_dec p) Hg (Hwf m (nth_error_In _ _ Hm))) as Hok.
+  unfold dec_body. revert st t He. generalize (incl_refl (p_dec p)). generalize (p_dec p) at 1 3 as ops.
+  induction ops as [|op ops IHo]; intros Hincl st t He; [exact He|]. cbn [fold_left fst snd].
+  pose proof (dec_op_sticky progs F' (dec_msg fuel progs (S F')) IH (p_dec p) Hok op st t (Hincl op (or_introl eq_refl)) He) as H1.
+  destruct (dec_op progs (S F') (dec_msg fuel progs (S F')) op st t) as [st1 t1]. cbn [fst] in H1.
+  apply IHo; [intros x Hx; apply Hincl; right; exact Hx|exact H1].
+Qed.
+
+(* ---------------------------------------------------------------- T_dec, first class of messages *)
+Definition simple_field (f : fdesc) : Prop :=
+  f_custom f = CNone /\ (exists k, fty f = TScalar k \/ (fty f = TEnum /\ k = KInt32)) /\ flabel f <> LRepeated.
+
+(* Unmarshal of a message whose fields are singular / optional / oneof scalars and enums (any of
+   the 15 kinds, any valid numbers, with or without capture of unknown fields): the result is the
+   reference decoder's on EVERY byte string - equal value when it accepts, an error when it rejects *)
+Theorem T_dec_simple s progs idx m data t0 g :
+  gen_all s = GOk progs -> wf_schema_dec s -> nth_error s idx = Some m ->
+  (forall f, In f (mfields m) -> simple_field f) -> bytes_ok data ->
+  let r := pico_unmarshal progs idx data t0 in
+  match ref_decode (S g) s idx data t0 with
+  | Some t'' => fst r = None /\ snd r = t''
+  | None => fst r <> None
+  end.
+Proof.
+  intros Hgen Hwf Hm Hsimple Hb. cbv zeta. unfold pico_unmarshal.
+  destruct (gen_all_nth_s s progs idx m Hgen Hm) as [p Hp].
+  destruct (gen_all_nth s progs idx p Hgen Hp) as [m' [Hm' [Hg _]]]. rewrite Hm in Hm'. injection Hm' as <-.
+  set (F' := S (S (length data))).
+  change (S (S (S (length data)))) with (S F').
+  cbn [dec_msg]. rewrite Hp.
+  destruct (Hwf m (nth_error_In _ _ Hm)) as [Hnd Hf].
+  pose proof (gen_msg_decode_ok s progs F' (dec_msg F' progs (S F')) (ref_decode g s) m (p_dec p) (length data) Hg Hnd
+                (fun f H => proj1 (Hf f H)) (fun f H => proj2 (Hf f H)) (dec_msg_sticky s progs F' Hgen Hwf F') ltac:(unfold F'; lia)) as Hmain.
+  assert (Hfield : forall slot f op, In (slot, f) (number_from 0 (mfields m)) ->
+            gen_field_decode s (oneof_siblings m f slot) slot f = GOk op ->
+            (forall tok t, t_num tok = fnum f -> apply_token s (ref_decode g s) m tok t = hfield s (ref_decode g s) m slot f tok t) ->
+            reader_ok (apply_token s (ref_decode g s) m) (length data) (op_reader progs (S F') (dec_msg F' progs (S F')) op)).
+  { intros slot f op Hin Hgf Hh. destruct (Hsimple f (number_from_In _ _ _ Hin)) as [Hc [[k Hk] Hl]].
+    apply (scalar_like_ok s progs F' (dec_msg F' progs (S F')) (ref_decode g s) m _ (length data) k slot f op Hc Hk Hl Hgf Hh). }
+  specialize (Hmain Hfield data {| pf := 0; pw := 0; buf := []; err := None |} t0 Hb (le_n _) eq_refl).
+  unfold push_state in Hmain. cbn [err] in Hmain.
+  destruct (Dec.loop (S F') (dec_body progs (S F') (dec_msg F' progs (S F')) (p_dec p))
+              (next_field 0 {| pf := 0; pw := 0; buf := data; err := None |}) t0) as [st' t'].
+  cbn [ref_decode fst snd]. rewrite Hm. unfold fold_opt in Hmain.
+  destruct (tokens data) as [ts|]; exact Hmain.
+Qed.
